@@ -118,6 +118,14 @@ func runC14(c *Ctx) {
 	ruleSiblingGuard(c, "mdiff")
 	ruleHeaderSides(c)
 	ruleLineExact(c)
+	ruleSentinelComplete(c)
+	ruleTimeExact(c)
+	c.rule("R-CONTEXT-FRESH", 1, "the leading and trailing context findContext returns are separate allocations (shared with C13): the formats print what Unify merged in place")
+	if fc := P.Func("mdiff", "Diff", "findContext"); fc != nil {
+		ruleContextDisjoint(c, fc)
+	} else {
+		c.undecided("ANCHOR", "mdiff.(*Diff).findContext", 0, "not found")
+	}
 
 	// ---------------- R-SPAN-SENTINEL
 	ps := P.Func("mdiff", "", "parseSpan")
